@@ -109,6 +109,7 @@ class World:
     self.nid = 0
     self.k = 0
     self.tag = ''
+    self.strip = False
 
   def name(self, s):
     self.k += 1
@@ -130,7 +131,8 @@ class World:
     ctx = self.ctx; of = self.of
     fm = of.ofp_flow_mod(command=cmd, priority=prio, idle_timeout=idle, hard_timeout=hard, flags=flags, out_port=out_port, cookie=cookie)
     fm.match = build_match(ctx, of, self.addrs, m)
-    fm.actions = [of.ofp_action_output(port=act_port)]
+    # (with self.strip the entry first strips the 802.1Q tag: the forwarded frame is shorter than the received one - the counters count what was received)
+    fm.actions = ([of.ofp_action_strip_vlan()] if self.strip else []) + [of.ofp_action_output(port=act_port)]
     fm.xid = 77
     wire = fm.pack()
     _, fm2 = of.ofp_flow_mod.unpack_new(wire)       # the command as the switch decodes it from the wire
@@ -261,7 +263,7 @@ class World:
       mm = build_match(ctx, self.of, self.addrs, r.m)
       ctx.check(tag + ': entry fields', ctx.And(e.priority == r.prio, e.idle_timeout == r.idle, e.hard_timeout == r.hard, e.flags == r.flags,
                                                 e.created == r.created, e.last_touched == r.touched, e.packet_count == r.pkts,
-                                                e.byte_count == r.bytes, len(e.actions) == 1, e.actions[0].port == r.act))
+                                                e.byte_count == r.bytes, len(e.actions) == (2 if self.strip else 1), e.actions[-1].port == r.act))
       ctx.check(tag + ': entry match', e.match == mm)
 
 
@@ -301,6 +303,28 @@ def h_step(ctx, npre, op, kinds=None):
   ctx.witness('step')
 
 
+def h_seq(ctx, script, kinds, strip=False):
+  """longer histories: a scripted sequence of operation *kinds*, every argument symbolic (matches from a reduced family, priorities, timeouts,
+  flags, out_port filters, packet port/vlan, time steps); the real switch and the reference table are stepped together and compared after
+  every operation"""
+  w = World(ctx); w.strip = strip
+  w.clock.now = ctx.int('t0', 0, 1000)
+  for i, op in enumerate(script):
+    if op == 'tick': w.tick(); continue
+    if op == 'packet': w.packet(ctx.int(w.name('qp'), 1, 4), ctx.int(w.name('qv'), 0, 4095))
+    elif op == 'sweep': w.sweep()
+    else:
+      cmd = dict(add=0, modify=1, modify_strict=2, delete=3, delete_strict=4)[op]
+      w.nid += 1
+      m = w.sym_match(kinds)
+      out_port = ctx.Ite(ctx.bool(w.name('filter')), ctx.int(w.name('outp'), 1, 4), NONE_PORT) if op in ('delete', 'delete_strict') else NONE_PORT
+      flags = (ctx.int(w.name('flags'), 0, 3) & 1) if op == 'add' else 0
+      w.flow_mod(cmd, m, ctx.int(w.name('prio'), 0, 0xffff), ctx.int(w.name('idle'), 0, 0xffff), ctx.int(w.name('hard'), 0, 0xffff), flags, out_port,
+                 ctx.int(w.name('act'), 1, 4), 1000 + w.nid)
+    w.compare('after op %d (%s)' % (i, op))
+  ctx.witness('step')
+
+
 def obligations(tier):
   thorough = tier != 'quick'
   ops = ['add', 'modify', 'modify_strict', 'delete', 'delete_strict', 'badcmd', 'packet', 'sweep']
@@ -322,5 +346,14 @@ def obligations(tier):
   BOUNDS[tier] = dict(pre_state_entries="0..%d (built by real ADD flow_mods, packets)" % (2 if True else 1), operations=ops,
                       fields="priority/idle/hard 16 bit, flags {SEND_FLOW_REM, CHECK_OVERLAP}, match in_port 1..5 (switch has ports 1..4; packets arrive on 1..4), vlan 0..4095, clock steps 0..70000",
                       match_family=KINDS)
-  return [Obligation('O1_step', h_step, cases, witnesses=('step', 'packet-hit', 'packet-miss', 'expired'), max_decisions=20000,
+  T = 'tick'
+  seqs = [dict(script=['add', T, 'packet', T, 'sweep', T, 'packet', T, 'sweep'], kinds=['p'], strip=True),           # traffic between two sweeps: only the idle clock is refreshed
+          dict(script=['add', T, 'sweep', T, 'add', T, 'sweep'], kinds=['p'])]                           # an entry re-installed after it expired
+  if thorough: seqs += [dict(script=['add', T, 'add', T, 'delete', T, 'sweep'], kinds=['all', 'p']),
+                        dict(script=['add', 'modify', T, 'packet', 'delete_strict'], kinds=['all', 'p']),
+                        dict(script=['add', T, 'add', T, 'packet', T, 'sweep', 'modify_strict', T, 'sweep'], kinds=['all', 'p']),
+                        dict(script=['add', 'add', 'add', T, 'delete', T, 'packet', 'sweep'], kinds=['all', 'p'])]
+  return [Obligation('O2_sequences', h_seq, seqs, witnesses=('step', 'packet-hit', 'expired'), max_decisions=20000,
+                     desc='scripted histories of 4-6 operations with symbolic arguments: state and messages == reference after every operation'),
+          Obligation('O1_step', h_step, cases, witnesses=('step', 'packet-hit', 'packet-miss', 'expired'), max_decisions=20000,
                      desc='one operation from a reachable pre-state: switch state and messages == reference OpenFlow 1.0 table')]
